@@ -149,12 +149,15 @@ func drawWeights(rt *rapid.T, n int) []int {
 func TestC05WRRHistory(t *testing.T) {
 	sub := lab.Sub("wrr-history", "rapid histories (0..30 events of add(w)/remove/eject(30s|5m|1h)/recover/advance/requests, pool 1..8, weights 0..6 or 0..30) in "+
 		"virtual time, then a window of N requests (N up to 3 periods, or up to 2000 / 20000 thorough) with a stable eligible set through lb.NextBackend or "+
-		"lb.ServeHTTP(L1); oracle: for every sub-window and every member, |count - share| <= 2*W_hist/W_E (W_hist = largest total configured weight so far); "+
+		"lb.ServeHTTP(L1); admin/monitoring calls interleaved with the window and in-flight counts {0,1,99,100,101,500} (+ parked requests) on the backends in 2/3 of the cases; "+
+		"oracle: for every sub-window and every member, |count - share| <= 2*W_hist/W_E (W_hist = largest total configured weight so far); "+
 		"non-trivial = n>=2 and non-empty history and (non-uniform weights or an ejected backend during the window)")
 	sub.NontrivialFloor(0.5)
 	sub.Floor("ejected-in-window", 0.25)
 	sub.Floor("recovered-before-window", 0.10)
 	sub.Floor("long-window", 0.15)
+	sub.Floor("observers-interleaved", 0.4)
+	sub.Floor("inflight-99plus", 0.3)
 	lab.Assume("C05 wrr-history: the bound 2*W_hist/W_E was validated against an independent simulation of smooth weighted round robin (random and greedy-adversarial histories: worst observed 1.71*W_hist/W_E)")
 	longN := lab.Scale(2000, 20000)
 	lab.Check(t, sub, 3000, 60000, func(rt *rapid.T) {
@@ -170,12 +173,14 @@ func TestC05WRRHistory(t *testing.T) {
 		var h *histState
 		var N, WE int
 		var inWindowEjected bool
+		var load loadPlan
+		var obs obsPlan
 		rapid.SyncTest(rt, func(rt *rapid.T) {
 			p, err := newPool("weighted_round_robin", ws)
 			if err != nil {
 				rt.Fatalf("harness: %v", err)
 			}
-			defer p.lb.Stop()
+			defer p.close()
 			h = &histState{p: p, until: map[string]time.Time{}}
 			h.noteWeight()
 			for i := 0; i < nev; i++ {
@@ -197,6 +202,9 @@ func TestC05WRRHistory(t *testing.T) {
 				WE += share[m]
 			}
 			inWindowEjected = len(E) < len(p.names)
+			load = drawLoad(rt, len(p.names), true)
+			obs = drawObs(rt)
+			p.applyLoad(load) // parked requests are part of the history (they take turns of the strategy)
 			if rapid.IntRange(0, 3).Draw(rt, "long") == 0 {
 				N = rapid.IntRange(3*WE+1, longN).Draw(rt, "N")
 			} else {
@@ -206,7 +214,7 @@ func TestC05WRRHistory(t *testing.T) {
 			lo := map[string]int{}
 			hi := map[string]int{}
 			for tt := 1; tt <= N; tt++ {
-				name, _ := p.pick(via)
+				name, _ := p.windowPick(via, obs, tt-1)
 				if _, member := share[name]; !member && name != "" {
 					viol = fmt.Sprintf("request %d of the window went to %q, which is not a member of the pool", tt, name)
 					return
@@ -231,7 +239,7 @@ func TestC05WRRHistory(t *testing.T) {
 				}
 			}
 		})
-		labels := []string{"via-" + via}
+		labels := append([]string{"via-" + via}, planLabels(load, obs)...)
 		if inWindowEjected {
 			labels = append(labels, "ejected-in-window")
 		}
@@ -252,7 +260,7 @@ func TestC05WRRHistory(t *testing.T) {
 			weightsNow = append(weightsNow, h.p.weight[m])
 		}
 		nt := len(h.p.names) >= 2 && len(h.evs) > 0 && (nonUniform(weightsNow) || inWindowEjected)
-		sub.Case(map[string]any{"weights": ws, "events": h.evs, "N": N, "via": via}, nt, labels...)
+		sub.Case(map[string]any{"weights": ws, "events": h.evs, "N": N, "via": via, "inflight": load, "observers": obs}, nt, labels...)
 		if viol != "" {
 			rt.Fatalf("weighted_round_robin weights=%v history=%+v window N=%d via=%s: %s", ws, h.evs, N, via, viol)
 		}
@@ -273,6 +281,8 @@ func TestC05RRHealthHistory(t *testing.T) {
 	excl := excluded(openKey)
 	sub.Floor("ejected-in-window", 0.2)
 	sub.Floor("recovered-before-window", 0.10)
+	sub.Floor("observers-interleaved", 0.4)
+	sub.Floor("inflight-99plus", 0.3)
 	lab.Check(t, sub, 1500, 30000, func(rt *rapid.T) {
 		n0 := rapid.IntRange(1, 8).Draw(rt, "n0")
 		via := rapid.SampledFrom([]string{"next", "serve"}).Draw(rt, "via")
@@ -281,12 +291,14 @@ func TestC05RRHealthHistory(t *testing.T) {
 		var h *histState
 		var m, k, offset int
 		var inWindowEjected, excluded bool
+		var load loadPlan
+		var obs obsPlan
 		rapid.SyncTest(rt, func(rt *rapid.T) {
 			p, err := newPool("round_robin", lab.Ones(n0))
 			if err != nil {
 				rt.Fatalf("harness: %v", err)
 			}
-			defer p.lb.Stop()
+			defer p.close()
 			h = &histState{p: p, until: map[string]time.Time{}}
 			for i := 0; i < nev; i++ {
 				h.step(rt, func() int { return 1 }, "serve")
@@ -304,12 +316,15 @@ func TestC05RRHealthHistory(t *testing.T) {
 			}
 			offset = rapid.IntRange(0, 2*m+1).Draw(rt, "offset")
 			k = rapid.IntRange(1, 4).Draw(rt, "k")
+			load = drawLoad(rt, len(p.names), true)
+			obs = drawObs(rt)
+			p.applyLoad(load)
 			for i := 0; i < offset; i++ {
 				p.pick(via)
 			}
 			seq := make([]string, 0, m*k)
 			for i := 0; i < m*k; i++ {
-				name, _ := p.pick(via)
+				name, _ := p.windowPick(via, obs, i)
 				seq = append(seq, name)
 			}
 			one, kk := map[string]int{}, map[string]int{}
@@ -328,7 +343,7 @@ func TestC05RRHealthHistory(t *testing.T) {
 			sub.Case(map[string]any{"n0": n0, "events": h.evs, "excluded": openKey}, false, "excluded-open-finding")
 			return
 		}
-		labels := []string{"via-" + via, fmt.Sprintf("m%d", m)}
+		labels := append([]string{"via-" + via, fmt.Sprintf("m%d", m)}, planLabels(load, obs)...)
 		if inWindowEjected {
 			labels = append(labels, "ejected-in-window")
 		}
@@ -338,7 +353,7 @@ func TestC05RRHealthHistory(t *testing.T) {
 		if h.nMem > 0 {
 			labels = append(labels, "membership-changed")
 		}
-		sub.Case(map[string]any{"n0": n0, "events": h.evs, "offset": offset, "k": k, "via": via}, m >= 2 && len(h.evs) > 0, labels...)
+		sub.Case(map[string]any{"n0": n0, "events": h.evs, "offset": offset, "k": k, "via": via, "inflight": load, "observers": obs}, m >= 2 && len(h.evs) > 0, labels...)
 		if viol != "" {
 			rt.Fatalf("round_robin n0=%d history=%+v offset=%d k=%d via=%s: %s", n0, h.evs, offset, k, via, viol)
 		}
